@@ -133,7 +133,8 @@ func NewComponents(spec specification.Components, cfg Config) (zero Components, 
 
 		// an alias shares the types of its target (its inline body type is declared by the target only)
 		typesOf := r.Name
-		if ref := r.V.Ref(); ref != nil {
+		for ref, n := r.V.Ref(), 0; ref != nil && n < 64; ref, n = ref.V.Ref(), n+1 {
+			// (through a chain of aliases: the component that holds the definition)
 			typesOf = ref.Name
 		}
 		hr := NewHandlerResponse(response, OperationName(typesOf), status, cs, cfg, ifaces...)
